@@ -45,6 +45,17 @@ Deciding monitor M (boundary oracle = the packing model):
   with tarfile's record padding or the minimal two-block end.  All queries are judged exactly as for any other
   package.  The set cases carry the same variants behind their part members.  zstd: the library has no zstd part
   name, so there is nothing to write.
+* look-alike part names (``look`` class, set cases): members whose name LOOKS like a control / data part but is none
+  of the 5 + 5 names of the statement - control.tar.zst, data.tar.lz4, control.tar.Z, data.tar.7z, control.tgz,
+  data.tar.GZ, data.tar.gz.bak, Control.tar.gz, control.tar., ... (LOOK_CTRL / LOOK_DATA).  A set in which such a
+  member stands where a required part should be lacks that part: ``DebFile(...)`` must raise ``DebError`` - at
+  construction (check_set only ever constructs; an object that comes back is the violation, whatever it does when it
+  is asked later).  Every look-alike name, every member order.
+* file objects with a minimal interface (``fobj`` class): ``DebFile(fileobj=...)`` is given an object that offers
+  read / seek / tell and nothing else, the same plus readline, an object with the file methods but none of the
+  attributes seekable / readable / name / closed / mode, and a read-only ``mmap.mmap`` of a real file.  Such a package
+  is driven through exactly the same queries and judged by exactly the same comparisons as with BytesIO; in addition
+  ``ArFile(fileobj=<same kind>)`` must list the written members and give their bytes back.
 """
 import bz2
 import gzip
@@ -63,6 +74,11 @@ import tarfile
 import zlib
 
 from ..models import arwriter
+
+try:
+    import mmap as _mmap
+except ImportError:         # pragma: no cover - not on this box
+    _mmap = None
 
 PROP = 'C07'
 LEVEL = 'exploration'
@@ -115,7 +131,29 @@ RULE = ('Packages are generated from a seeded description (control fields incl. 
         'INCONCLUSIVE); a variant that the stdlib decoder of its format does not give back is given up (counted '
         'var-given-up:*, reaches no floor).  Every third member-set case has its part members written with such '
         'variants (light ones).  All queries of a package are judged as before; M.var.query counts those made on a '
-        'package with at least one variant part.')
+        'package with at least one variant part.  '
+        'Look-alike class (set cases; counters look:*, monitors M.look, M.look.must-reject, M.look.replaced-part): '
+        '@NLOOK@ member names that look like a control / data part without being one of the ten names of the statement '
+        '(other compressors: .tar.zst .tar.zstd .tar.lz .tar.lz4 .tar.lzo .tar.Z .tar.z .tar.7z .tar.br .zip; short forms '
+        '.tgz .txz .tbz2; other case: .tar.GZ .tar.XZ .tar.Bz2 .tar.LZMA .TAR .Tar.gz Control.tar.gz CONTROL.TAR.GZ; '
+        'backup / edited forms: .tar.gz~ .tar.gz.1 .tar.gz.bak .tar.xz.orig .tar.gz. "tar .gz" .tar..gz .tar-gz .tar_xz; near '
+        'misses: .tar. .tar.tar .tar.g .tar.bz .tar.lzm .tar.x .tar.gzip .tar.bzip2 .tar.gzz .ta xcontrol.tar.gz '
+        'controls.tar.gz control.gz control).  Enumerated in ALL member orders: debian-binary + look-alike + the other part '
+        'in each of its five spellings (class replaced); both parts replaced; two look-alikes where one part should be; '
+        'replaced plus a "_" distractor / plus a repeated member; the look-alike next to the real part in an otherwise '
+        'complete set; part names followed by a blank or tab (GNU ar style "control.tar.gz /"); look-alikes of '
+        'debian-binary; plus seeded larger sets.  Behind a look-alike name lies a real tarball in the compression its '
+        'name hints at, or the magic number of the hinted format.  The archives are opened through BytesIO, filename= and '
+        'the four minimal-interface objects in rotation.  Every look-alike name must have stood in must-reject sets at '
+        'least its floor, else INCONCLUSIVE.  '
+        'Minimal-interface class (counters fobj:<kind>:<part>:<compression>, open:<kind>; monitors M.fobj.pkg, M.fobj.query, '
+        'M.fobj.ar, M.fobj.set): 40% of the fileobj= packages are read from one of: an object with read/seek/tell only, '
+        'one with read/seek/tell/readline only, one with the usual file methods but without seekable / readable / name / '
+        'closed / mode / fileno, a read-only mmap.mmap of a real file.  All queries of such a package (debcontrol, scripts, '
+        'md5sums in both encodings, has_file / in / get_content / get_file / [] incl. text mode, iteration, second use) are '
+        'made and judged exactly as for a BytesIO package; afterwards ArFile(fileobj=<same kind of object>) must list the '
+        'members written and return their bytes.  Every kind must meet every compression of the control part and of the '
+        'data part at least its floor, else INCONCLUSIVE.')
 ASSUMPTIONS = [
     'vp.models.arwriter writes a well-formed ar archive (checked against `ar t` / dpkg-deb in the thorough tier when installed)',
     'stdlib tarfile/gzip/bz2/lzma produce valid tarballs; tar members are written with the ./ prefix (dpkg convention, the form the reader documents)',
@@ -139,6 +177,14 @@ ASSUMPTIONS = [
     'zstd parts are not generated: debfile.PART_EXTS of the library has no zst entry, so the statement\'s list (none/gz/bz2/xz/lzma) is the whole supported set here',
     'tar:ustar variants are assigned only to parts whose names and link targets are <= 90 bytes (the next variant of the round robin is taken otherwise); "min-eof" ends the archive with exactly two zero blocks (tar -b1), which POSIX defines as the end-of-archive marker',
     'a member-set case with encoder variants is judged by the same acceptance predicate; variants only change the bytes behind the part names',
+    'look-alike names: the candidates of a part are the five names the statement lists (part.tar, .gz, .bz2, .xz, .lzma) - the list is fixed in the harness, not read from debfile.PART_EXTS of the tree under observation.  zstd: neither the statement nor the unchanged tree (PART_EXTS has no zst entry; tarfile of this Python cannot read zstd) supports it, so control.tar.zst / data.tar.zst are look-alikes here.  Established on the unchanged tree for every listed name, every member order, bare and GNU ar name style: a set whose only control (data) member is a look-alike raises DebError("missing required part ...") from DebFile.__init__; that - the error at construction - is what is demanded',
+    'look-alike names are limited to what an ar short name can hold (16 bytes; 15 in the GNU style): control.tar.gz.bak (18) cannot be written without a long-name table, which is outside the statement - data.tar.gz.bak, control.tar.gz~ and control.tar.gz.1 stand for that family',
+    'a COMPLETE set (debian-binary, one supported control name, one supported data name) that carries a look-alike member in addition is not decided by the statement (dpkg-deb gives up on unknown members, the unchanged tree ignores them): acceptance (then the standard content must be served from the real parts) and DebError are both tolerated, any other exception is a violation (counted look:either-outcome-tolerated:*)',
+    'a part name followed by a blank or tab exists only in the GNU ar style ("control.tar.gz /"); the unchanged tree reads it as the supported name (arfile strips the 16-byte name field, and in the bare style the bytes are identical to the supported name anyway).  Such a set is demanded to be rejected only when it is defective both with the name as written and with the name stripped; otherwise either outcome is tolerated, an accepted object must serve the standard content',
+    'debian-binary look-alikes (Debian-binary, debian_binary, debian-binary~ ...) in place of debian-binary: the set lacks debian-binary and must be rejected with DebError (unchanged tree: established)',
+    'minimal-interface objects: what the unchanged tree calls on fileobj= is read(n), seek(pos) / seek(off, 1) and tell() (ArFile.__collect_members, ArMember.from_file, ArMember.read) plus its truth value (`elif self.__fileobj:`); all four object kinds are truthy and were established to serve every query for all 25 compression pairs on the unchanged tree.  The wrappers have the standard signatures read(size=-1), seek(offset, whence=0) -> new position, tell(); mmap.seek returns None on this Python, which the unchanged tree never looks at',
+    'ArMember.readline / readlines of the container layer are NOT exercised on minimal objects (they need readline(size) of the underlying object, which read/seek/tell objects do not have and mmap spells differently); the ArFile check uses getnames(), getmembers() and member.read() only',
+    'mmap kind: the package is written to a temporary file, mapped ACCESS_READ, and unmapped after the DebFile was closed; where the mmap module is missing the kind (and its floors) do not exist',
 ]
 ANCHORS = ['debian.debfile:DebFile.__init__',
            'debian.debfile:DebPart.tgz',
@@ -160,6 +206,7 @@ MUST_REACH = ['debian.debfile:DebFile.__init__', 'debian.debfile:DebPart.tgz', '
 
 PKGS = {'quick': 2000, 'thorough': 120000}          # TOTAL package cases per tier
 RANDOM_SETS = {'quick': 2000, 'thorough': 200000}   # TOTAL seeded larger member multisets per tier
+LOOK_SETS = {'quick': 600, 'thorough': 42000}       # TOTAL seeded member sets with look-alike part names per tier
 
 FLOORS = {   # ~50% of what a run on the unchanged tree measures (quick: min over seeds 0-3; thorough: seed 0)
     'quick': {'nontrivial': 800,
@@ -244,6 +291,70 @@ PARTS11 = [INFO] + CTRL_NAMES + DATA_NAMES
 DISTRACTORS = ['_gpgorigin', '_data.tar.gz', '_control.tar', '_debian-binary', '_x']
 SCRIPTS = ['preinst', 'postinst', 'prerm', 'postrm', 'config']
 UNICODE_OK = (tarfile.ENCODING == 'utf-8' and sys.getfilesystemencoding() == 'utf-8')
+
+
+# --- look-alike part names: members whose name LOOKS like a control / data part but is none of the 5 + 5 names the
+# statement (and debfile.PART_EXTS of the unchanged tree) knows.  The list is static on purpose: it is the statement's
+# list that decides, not whatever PART_EXTS says on the tree under observation.
+LOOK_SUFFIXES = ['.tar.zst', '.tar.zstd', '.tar.lz', '.tar.lz4', '.tar.Z', '.tar.z', '.tar.7z', '.tgz', '.txz', '.tbz2',
+                 '.tar.GZ', '.tar.XZ', '.tar.Bz2', '.tar.LZMA', '.tar.gz~', '.tar.gz.1', '.tar.gz.bak', '.tar.xz.orig',
+                 '.tar.gzip', '.tar.bzip2', '.tar.', '.tar.tar', '.tar.g', '.tar.bz', '.tar.lzm', '.tar.x', '.tar .gz',
+                 '.tar..gz', '.tar-gz', '.tar_xz', '.tar.gz.', '.tar.gz,', '.zip', '.TAR', '.Tar.gz', '.tar.gzz', '.tar.xzz',
+                 '.ta', '.tar.lzo', '.tar.br']
+
+
+def _look_names(base):
+    out = [base + sfx for sfx in LOOK_SUFFIXES] + [base.capitalize() + '.tar.gz', base.upper() + '.TAR.GZ',
+                                                   base.capitalize() + '.tar', 'x' + base + '.tar.gz', base + 's.tar.gz',
+                                                   base + '-tar.gz', base + '.gz', base]
+    # an ar short name holds 16 bytes ('control.tar.gz.bak' does not exist as a short name; 'data.tar.gz.bak' does)
+    return [n for n in out if arwriter.fits(n, 'bare')]
+
+
+LOOK_CTRL = _look_names('control')
+LOOK_DATA = _look_names('data')
+LOOKALIKES = LOOK_CTRL + LOOK_DATA
+RULE = RULE.replace('@NLOOK@', str(len(LOOKALIKES)))
+# a supported part name followed by a blank (tab): cannot be told from the supported name in the bare ar style (names
+# are blank padded); written in the GNU style ("control.tar.gz /") where the blank is in front of the terminator.
+# The unchanged tree reads the supported name (arfile strips the name field) - either outcome is tolerated.
+LOOK_BLANK = [n + b for n in CTRL_NAMES + DATA_NAMES for b in (' ', '\t', '  ') if len(n + b) <= 15]
+LOOK_MAGIC = [('zst', False, b'\x28\xb5\x2f\xfd\x24\x00'), ('.lz4', True, b'\x04\x22\x4d\x18\x64\x40'),
+              ('.lzo', True, b'\x89LZO\x00\r\n\x1a\n'), ('.lz', True, b'LZIP\x01\x0c'),
+              ('.7z', True, b'7z\xbc\xaf\x27\x1c\x00\x04'), ('.zip', True, b'PK\x03\x04\x14\x00'),
+              ('.br', True, b'\xce\xb2\xcf\x81'), ('.z', True, b'\x1f\x9d\x90')]
+
+
+def is_blank_name(n):
+    return n != n.strip()
+
+
+def look_part(n):
+    """'control' / 'data' for a look-alike (or blank-suffixed) name, else None"""
+    if n in PARTS11 or n.startswith('_'):
+        return None
+    low = n.strip().lower()
+    if 'control' in low:
+        return 'control'
+    if 'data' in low:
+        return 'data'
+    return None
+
+
+def look_blob(name):
+    """what lies behind a look-alike name: a real tarball of the standard content in the compression the name hints
+    at when the stdlib can write it (so that a reader which lets the name through would find a readable part), else
+    the magic number of the hinted format followed by filler"""
+    part = look_part(name) or 'data'
+    low = name.strip().lower()
+    std = part + '.tar'
+    for hint, at_end, blob in LOOK_MAGIC:
+        if low.endswith(hint) if at_end else hint in low:
+            return blob + bytes(range(256)) * 2
+    for hint, comp in (('gz', 'gz'), ('xz', 'xz'), ('bz', 'bz2'), ('lzm', 'lzma')):
+        if hint in low:
+            return std_blob(std + '.' + comp)
+    return std_blob(std)
 TARFMT = {'gnu': tarfile.GNU_FORMAT, 'pax': tarfile.PAX_FORMAT, 'ustar': tarfile.USTAR_FORMAT}
 
 
@@ -519,6 +630,48 @@ for _tier in ('quick', 'thorough'):
     FLOORS[_tier]['counters'].update(VAR_FLOOR_OTHER[_tier]['counters'])
 
 
+# Floors of the look-alike class and of the minimal-interface class (quick: ~50% of the minimum over seeds 0-3; thorough:
+# ~50% of seed 0).  EVERY look-alike name must have stood in a set that had to be rejected, every object kind must
+# have met every compression of both parts.
+LOOK_FLOOR = {
+    'quick': {'monitors': {'M.look': 3600, 'M.look.must-reject': 2900, 'M.look.replaced-part': 2500},
+              'name': 35,
+              'counters': {'look:class:replaced': 1390, 'look:class:both-replaced': 270, 'look:class:two-look-alikes': 370,
+                           'look:class:next-to-real-part': 560, 'look:class:replaced+distractor': 370,
+                           'look:class:replaced+repeated-member': 270, 'look:class:blank-suffixed': 88,
+                           'look:class:info-look-alike': 27, 'look:class:seeded': 270,
+                           'look:replaced:control': 1250, 'look:replaced:data': 1300, 'look:replaced:both': 0,
+                           'look:replaced:first-member:look-alike': 890, 'look:replaced:last-member:look-alike': 890,
+                           'look:replaced:open:fileobj': 1400, 'look:replaced:open:filename': 240,
+                           'look:must-reject:blank-suffixed-name': 22, 'look:must-reject:debian-binary-look-alike': 27}},
+    'thorough': {'monitors': {'M.look': 3600, 'M.look.must-reject': 2900, 'M.look.replaced-part': 2500},
+                 'name': 35,
+                 'counters': {}},
+}
+FOBJ_FLOOR = {
+    'quick': {'monitors': {'M.fobj.pkg': 280, 'M.fobj.query': 20000, 'M.fobj.ar': 280, 'M.fobj.set': 1300},
+              'per-kind-part-compression': 8, 'open': 400, 'look:replaced:open': 220},
+    'thorough': {'monitors': {'M.fobj.pkg': 280, 'M.fobj.query': 20000, 'M.fobj.ar': 280, 'M.fobj.set': 1300},
+                 'per-kind-part-compression': 8, 'open': 400, 'look:replaced:open': 220},
+}
+
+
+def _install_new_floors():
+    for tier in ('quick', 'thorough'):
+        mon, cnt = FLOORS[tier]['monitors'], FLOORS[tier]['counters']
+        mon.update(LOOK_FLOOR[tier]['monitors'])
+        mon.update(FOBJ_FLOOR[tier]['monitors'])
+        cnt.update((k, v) for k, v in LOOK_FLOOR[tier]['counters'].items() if v)
+        for n in LOOKALIKES:
+            cnt['look:must-reject:name:' + n] = LOOK_FLOOR[tier]['name']
+        for kind in FOBJ_KINDS:
+            cnt['open:' + kind] = FOBJ_FLOOR[tier]['open']
+            cnt['look:replaced:open:' + kind] = FOBJ_FLOOR[tier]['look:replaced:open']
+            for part in ('control', 'data'):
+                for comp in COMP:
+                    cnt['fobj:%s:%s:%s' % (kind, part, comp or 'none')] = FOBJ_FLOOR[tier]['per-kind-part-compression']
+
+
 def ustar_ok(names):
     return all(len(n.encode('utf-8')) <= 90 for n in names)
 
@@ -680,6 +833,7 @@ def build_pkg(case):
         members.append((name, data, mtime, uid, gid, mode))
     raw = arwriter.build_ar(members, style=ar.get('style', 'bare'))
     model = {'fields': [tuple(f) for f in case['fields']], 'control_raw': ctl, 'md5_raw': md5,
+             'ar_members': [(m[0], m[1]) for m in members],
              'scripts': dict(scripts), 'files': files, 'dirs': dirs, 'links': [l[0] for l in links],
              'md5': dict((n, hashlib.md5(d).hexdigest()) for n, d in files),
              'cfiles': [(n, d) for n, d in cmembers],
@@ -1134,6 +1288,10 @@ def gen_pkg(r, j, cc, dc):
     # name-edge class and second-use class (drawn after everything else, for the same reason)
     add_edge_names(r, j, case)
     case['reuse'] = gen_reuse(r, case)
+    # minimal-interface file objects (drawn last again): 40% of the fileobj= packages are read from one of FOBJ_KINDS
+    k, pick = r.random(), r.randrange(len(FOBJ_KINDS))
+    if case['open'] == 'fileobj' and k < 0.4:
+        case['open'] = FOBJ_KINDS[pick]
     return case
 
 
@@ -1189,6 +1347,81 @@ def gen_random_set(r):
     return seq
 
 
+LOOK_INFO = ['debian-binary~', 'Debian-binary', 'debian_binary', 'debian-binary.', 'debian-binar', 'debian.binary',
+             'DEBIAN-BINARY', 'debian-binary2', 'debian-binary.gz']
+LOOK_OPEN = ['fileobj', 'fileobj:rst', 'fileobj', 'fileobj:plain', 'fileobj', 'mmap' if _mmap is not None else 'fileobj',
+             'fileobj:rstl', 'filename', 'fileobj', 'fileobj', 'fileobj']
+
+
+def enum_lookalike_sets():
+    """-> (label, members): member sets with look-alike part names, every member order of each"""
+    perms = itertools.permutations
+    for base, looks, others in (('control', LOOK_CTRL, DATA_NAMES), ('data', LOOK_DATA, CTRL_NAMES)):
+        mine = CTRL_NAMES if base == 'control' else DATA_NAMES
+        other_looks = LOOK_DATA if base == 'control' else LOOK_CTRL
+        for i, n in enumerate(looks):
+            # (a) a required part replaced by a look-alike; the other part in each of its five spellings
+            for o in others:
+                for p in perms([INFO, n, o]):
+                    yield 'replaced', list(p)
+            # (b) both parts replaced
+            for p in perms([INFO, n, other_looks[(i * 7 + 3) % len(other_looks)]]):
+                yield 'both-replaced', list(p)
+            # (c) two look-alikes where one part should be
+            for p in perms([INFO, n, looks[(i + 11) % len(looks)], others[i % 5]]) if i % 3 == 0 else ():
+                yield 'two-look-alikes', list(p)
+            # (d) look-alike next to the real part (complete set: either outcome, accepted => content served)
+            for p in perms([INFO, n, mine[i % 5], others[(i // 5) % 5]]) if i % 2 == 0 else ():
+                yield 'next-to-real-part', list(p)
+            # (e) replaced, and a "_" distractor / a repeated member in the set
+            for p in perms([INFO, n, others[(i + 2) % 5], DISTRACTORS[i % len(DISTRACTORS)]]) if i % 3 == 1 else ():
+                yield 'replaced+distractor', list(p)
+            for p in perms([INFO, n, others[(i + 3) % 5]]):
+                yield 'replaced+repeated-member', list(p) + [p[i % 3]]
+    # (f) blank-suffixed part names (GNU ar style only)
+    for i, n in enumerate(LOOK_BLANK):
+        others = DATA_NAMES if look_part(n) == 'control' else CTRL_NAMES
+        o = [x for x in others if len(x) <= 15]
+        for p in perms([INFO, n, o[i % len(o)]]):
+            yield 'blank-suffixed', list(p)
+        for p in perms([INFO, n]):
+            yield 'blank-suffixed', list(p)           # defective under both readings: must be rejected
+    # (g) debian-binary look-alikes in an otherwise complete set
+    for i, n in enumerate(LOOK_INFO):
+        for p in perms([n, CTRL_NAMES[i % 5], DATA_NAMES[(i // 2) % 5]]):
+            yield 'info-look-alike', list(p)
+
+
+def gen_random_look_set(r):
+    """seeded larger look-alike sets: a valid triple with one or both parts replaced / accompanied by look-alikes,
+    then duplicates and distractors, shuffled"""
+    ctrl, data = r.choice(CTRL_NAMES), r.choice(DATA_NAMES)
+    seq = [INFO, ctrl, data]
+    k = r.random()
+    if k < 0.35:
+        seq[1] = r.choice(LOOK_CTRL)
+    elif k < 0.70:
+        seq[2] = r.choice(LOOK_DATA)
+    elif k < 0.80:
+        seq[1], seq[2] = r.choice(LOOK_CTRL), r.choice(LOOK_DATA)
+    elif k < 0.90:
+        seq.append(r.choice(LOOKALIKES))
+    else:
+        seq[0] = r.choice(LOOK_INFO)
+    for _ in range(r.randint(0, 3)):
+        k = r.random()
+        if k < 0.3:
+            seq.append(r.choice(seq))
+        elif k < 0.55:
+            seq.append(r.choice(DISTRACTORS))
+        elif k < 0.85:
+            seq.append(r.choice(LOOK_CTRL if look_part(seq[1]) else LOOK_DATA if look_part(seq[2]) else LOOKALIKES))
+        else:
+            seq.append(r.choice(PARTS11))
+    r.shuffle(seq)
+    return seq
+
+
 _STD = {}
 STD_CONTROL = [('Package', 'stdpkg'), ('Version', '1.0'), ('Description', 'std\n long text')]
 STD_FILE = ('usr/share/std pkg/.x y', b'payload \x00\xff of the standard data part\n')
@@ -1217,6 +1450,10 @@ def set_variants(names, k):
 
 def std_blob(name, v=None):
     """tiny valid content behind every member name used by set cases; v = encoder variant of a part (or None)"""
+    if look_part(name):                 # look-alike / blank-suffixed part name: see look_blob
+        if name not in _STD:
+            _STD[name] = look_blob(name)
+        return _STD[name]
     if v is not None:
         base = name.lstrip('_')
         if not (base.startswith('control.tar') or base.startswith('data.tar')):
@@ -1243,7 +1480,7 @@ def std_blob(name, v=None):
             tar = mktar([('', 'd', None, 0o755, 0), (STD_FILE[0], 'f', STD_FILE[1], 0o644, 0)], 'gnu')
             _STD[name] = compress(comp, tar)
         else:
-            _STD[name] = b'distractor\n'
+            _STD[name] = b'2.0\n' if 'binary' in name.lower() else b'distractor\n'
     return _STD[name]
 
 
@@ -1293,6 +1530,19 @@ def cases(ctx):
             yield with_variants({'kind': 'set', 'members': seq, 'style': 'gnu' if (i // ctx.nshards) % 2 else 'bare',
                                  'open': 'filename' if (i // ctx.nshards) % 61 == 3 else 'fileobj'}, i // ctx.nshards)
         i += 1
+    # (1b) look-alike part names: enumerated sets in all member orders, then seeded larger ones; the way the archive
+    #      is opened rotates through BytesIO, filename= and the minimal-interface objects
+    k = 0
+    for label, seq in enum_lookalike_sets():
+        if ctx.mine(i):
+            style = 'gnu' if (k % 2 and all(arwriter.fits(n, 'gnu') for n in seq)) else 'bare'
+            yield {'kind': 'set', 'members': seq, 'style': style, 'open': LOOK_OPEN[k % len(LOOK_OPEN)], 'look': label}
+            k += 1
+        i += 1
+    r = ctx.rng('look-sets')
+    for k in range(ctx.size(LOOK_SETS['quick'], LOOK_SETS['thorough'])):
+        seq = gen_random_look_set(r)
+        yield {'kind': 'set', 'members': seq, 'style': r.choice(['bare', 'gnu']), 'open': r.choice(LOOK_OPEN), 'look': 'seeded'}
     # (2) seeded larger multisets
     r = ctx.rng('sets')
     for k in range(ctx.size(RANDOM_SETS['quick'], RANDOM_SETS['thorough'])):
@@ -1359,17 +1609,102 @@ class Findings(list):
         self.append((key, msg))
 
 
-def open_deb(ctx, raw, how):
-    """-> (DebFile, cleanup)"""
+# --- file objects with a minimal interface ----------------------------------------------------------------------
+# What the unchanged tree asks of fileobj= is read(n), seek(pos[, whence]) and tell() (ArFile.__collect_members,
+# ArMember.from_file / read); the objects below offer exactly that, or that plus a little, and nothing else.
+
+class ReadSeekTell(object):
+    """read / seek / tell over a private BytesIO - no other method, no attribute"""
+    __slots__ = ('_b',)
+
+    def __init__(self, raw):
+        self._b = io.BytesIO(raw)
+
+    def read(self, size=-1):
+        return self._b.read(size)
+
+    def seek(self, offset, whence=0):
+        return self._b.seek(offset, whence)
+
+    def tell(self):
+        return self._b.tell()
+
+
+class ReadSeekTellReadline(ReadSeekTell):
+    """... plus readline"""
+    __slots__ = ()
+
+    def readline(self, size=-1):
+        return self._b.readline(size)
+
+
+class PlainFile(ReadSeekTellReadline):
+    """the usual METHODS of a binary file (read, readline, readlines, seek, tell, close, iteration, with) but none
+    of the attributes seekable / readable / writable / name / closed / mode / fileno / readinto / getvalue"""
+    __slots__ = ()
+
+    def readlines(self, hint=-1):
+        return self._b.readlines(hint)
+
+    def close(self):
+        pass
+
+    def __iter__(self):
+        return iter(self._b)
+
+    def __enter__(self):
+        return self
+
+    def __exit__(self, *exc):
+        return None
+
+
+FOBJ_CLASSES = {'fileobj:rst': ReadSeekTell, 'fileobj:rstl': ReadSeekTellReadline, 'fileobj:plain': PlainFile}
+FOBJ_KINDS = sorted(FOBJ_CLASSES) + (['mmap'] if _mmap is not None else [])
+FOBJ_TEXT = {'fileobj:rst': 'an object with read/seek/tell only', 'fileobj:rstl': 'an object with read/seek/tell/readline only',
+             'fileobj:plain': 'an object with the file methods but no seekable/readable/name/closed/mode attributes',
+             'mmap': 'a read-only mmap.mmap of the package file'}
+
+
+_install_new_floors()
+
+
+def open_deb(ctx, raw, how, cls=None):
+    """-> (opener, cleanup).  how: 'fileobj' (BytesIO), 'filename', 'fileobj:rst|rstl|plain' (minimal-interface
+    wrappers), 'mmap' (read-only mmap of a real file).  cls: the class to instantiate (DebFile by default)"""
     from debian import debfile
-    if how == 'filename':
+    cls = cls or debfile.DebFile
+    if how in ('filename', 'mmap'):
         d = ctx.tmpdir() if not getattr(ctx, '_c07dir', None) else ctx._c07dir
         ctx._c07dir = d
         path = os.path.join(d, 'p%d.deb' % os.getpid())
+
+        def unlink():
+            try:
+                os.unlink(path)
+            except OSError:
+                pass
+        unlink()        # never write into a file that an earlier (failed) case may still have mapped
         with open(path, 'wb') as f:
             f.write(raw)
-        return (lambda: debfile.DebFile(filename=path)), path
-    return (lambda: debfile.DebFile(fileobj=io.BytesIO(raw))), None
+        if how == 'filename':
+            return (lambda: cls(filename=path)), unlink
+        f = open(path, 'rb')
+        mm = _mmap.mmap(f.fileno(), 0, access=_mmap.ACCESS_READ)
+
+        def cleanup():
+            try:
+                mm.close()
+            except (BufferError, ValueError):
+                pass
+            f.close()
+            unlink()
+        return (lambda: cls(fileobj=mm)), cleanup
+    if how in FOBJ_CLASSES:
+        return (lambda: cls(fileobj=FOBJ_CLASSES[how](raw))), (lambda: None)
+    if how != 'fileobj':
+        raise ValueError('unknown way to open a package: %r' % (how,))
+    return (lambda: cls(fileobj=io.BytesIO(raw))), (lambda: None)
 
 
 def outcome(fn):
@@ -1403,13 +1738,23 @@ def check_pkg(ctx, case, stats):
             stats.mon(name, n)
             if name == 'M.query' and var_parts:
                 stats.mon('M.var.query', n)     # a query judged on a package with a non-default encoder variant
+            if name == 'M.query' and case.get('open') in FOBJ_KINDS:
+                stats.mon('M.fobj.query', n)    # a query judged on a DebFile that reads from a minimal-interface object
 
     def count(name, n=1):
         if stats is not None:
             stats.count(name, n)
 
-    opener, path = open_deb(ctx, raw, case.get('open', 'fileobj'))
-    count('open:' + case.get('open', 'fileobj'))
+    opened = case.get('open', 'fileobj')
+    minimal = opened in FOBJ_KINDS
+    opener, cleanup = open_deb(ctx, raw, opened)
+    count('open:' + opened)
+    if minimal:
+        # minimal-interface class: counted per object kind and compression of each part (floors: every kind meets
+        # every compression of both parts)
+        mon('M.fobj.pkg')
+        count('fobj:%s:control:%s' % (opened, case['cc'] or 'none'))
+        count('fobj:%s:data:%s' % (opened, case['dc'] or 'none'))
     count('ar-style:' + case['ar'].get('style', 'bare'))
     count('tarfmt:' + case.get('tarfmt', 'gnu'))
     count('config:%s/%s' % (case['cc'] or 'none', case['dc'] or 'none'))
@@ -1438,10 +1783,12 @@ def check_pkg(ctx, case, stats):
     except debfile.DebError as e:
         out.add('wellformed-package-rejected', 'DebFile() raised DebError(%s) for control=%r data=%r ar order %r style %s'
                 % (e, part_name('control', case['cc']), part_name('data', case['dc']), case['ar']['order'], case['ar'].get('style')))
+        cleanup()
         return out
     except Exception as e:
         out.add('constructor-raises/%s' % type(e).__name__, 'DebFile() raised %r on a well-formed package (control=%r data=%r)'
                 % (e, part_name('control', case['cc']), part_name('data', case['dc'])))
+        cleanup()
         return out
 
     files = model['files']
@@ -1831,11 +2178,31 @@ def check_pkg(ctx, case, stats):
         deb.close()
     except Exception as e:
         out.add('close-raises/%s' % type(e).__name__, repr(e))
-    if path:
+    del deb
+    cleanup()
+    if minimal:
+        # the container layer on its own: ArFile(fileobj=<same kind of object>) must list the members that were
+        # written and give their bytes back through read()
+        from debian import arfile
+        mon('M.fobj.ar')
+        opener, cleanup = open_deb(ctx, raw, opened, cls=arfile.ArFile)
         try:
-            os.unlink(path)
-        except OSError:
-            pass
+            af = opener()
+            want_names = [n for n, _ in model['ar_members']]
+            if af.getnames() != want_names:
+                out.add('arfile-member-names-differ/minimal-file-object',
+                        'ArFile(fileobj=%s).getnames() -> %r, written %r' % (FOBJ_TEXT[opened], af.getnames(), want_names))
+            else:
+                for m, (n, data) in zip(af.getmembers(), model['ar_members']):
+                    got = m.read()
+                    if got != data:
+                        out.add('arfile-member-content-differs/minimal-file-object',
+                                'ArFile(fileobj=%s): member %r read() -> %s, written %s' % (FOBJ_TEXT[opened], n, brief(got), brief(data)))
+                        break
+            del af
+        except Exception as e:
+            out.add('arfile-raises/%s/minimal-file-object' % type(e).__name__, 'ArFile(fileobj=%s): %r' % (FOBJ_TEXT[opened], e))
+        cleanup()
     return out
 
 
@@ -1844,15 +2211,31 @@ def check_set(ctx, case, stats):
     out = Findings()
     names = case['members']
     style = case.get('style', 'bare')
-    if style == 'gnu' and not all(arwriter.fits(n, 'gnu') for n in names):
+    blank = [n for n in names if is_blank_name(n)]
+    look = [n for n in names if look_part(n) and not is_blank_name(n)]
+    strict = True
+    if blank:
+        # a name with a blank behind it exists only in the GNU style ("name /"); the writer is told not to refuse it
+        style, strict = 'gnu', False
+    elif style == 'gnu' and not all(arwriter.fits(n, 'gnu') for n in names):
         style = 'bare'
     var = case.get('var') or []
     var = [var[i] if i < len(var) else None for i in range(len(names))]
-    raw = arwriter.build_ar([(n, std_blob(n, v)) for n, v in zip(names, var)], style=style)
+    raw = arwriter.build_ar([(n, std_blob(n, v)) for n, v in zip(names, var)], style=style, strict=strict)
     want = acceptable(names)
     # a repeated identical name is ONE candidate (so it never makes a set defective), but the statement does not
     # promise that an archive with repeated members is readable either: for those, DebError is tolerated too.
     dup = len(set(names)) != len(names)
+    # look-alike names are never candidates: a set whose only "control" / "data" member is a look-alike lacks that
+    # part and must be rejected AT CONSTRUCTION.  Where the statement is silent either outcome is tolerated:
+    #  - a complete set with a look-alike member next to the real parts (dpkg gives up on unknown members, the
+    #    unchanged tree ignores them);
+    #  - a blank-suffixed part name, unless the set is defective both when the name is read as written and when it
+    #    is read as the supported name.
+    twin = bool(look) and want
+    blank_decides = bool(blank) and (want or acceptable([n.strip() for n in names]))
+    either = twin or blank_decides
+    how = case.get('open', 'fileobj')
     if stats is not None:
         stats.mon('M.accept')
         if want and dup:
@@ -1863,7 +2246,7 @@ def check_set(ctx, case, stats):
             stats.count('set:with-encoder-variants')
             stats.count('set:with-encoder-variants:' + ('acceptable' if want else 'defective'))
         stats.count('ar-style:' + style)
-        stats.count('open:' + case.get('open', 'fileobj'))
+        stats.count('open:' + how)
         s = set(names)
         for plain, sibs, others in (('data.tar', DATA_NAMES, CTRL_NAMES), ('control.tar', CTRL_NAMES, DATA_NAMES)):
             mine = s.intersection(sibs)
@@ -1873,36 +2256,71 @@ def check_set(ctx, case, stats):
                     other = (mine - {plain}).pop()
                     first = 'plain-first' if names.index(plain) < names.index(other) else 'compressed-first'
                     stats.count('set:sibling-decides:' + first)
-    opener, path = open_deb(ctx, raw, case.get('open', 'fileobj'))
+        look_info = [n for n in names if n != INFO and 'binary' in n.lower() and not n.startswith('_')]
+        if look or blank or look_info or case.get('look'):
+            stats.mon('M.look')
+            stats.count('look:class:' + case.get('look', 'unlabelled'))
+            if look_info and INFO not in s:
+                stats.count('look:must-reject:debian-binary-look-alike')
+            if either:
+                stats.count('look:either-outcome-tolerated:' + ('complete-set-plus-look-alike' if twin else 'blank-suffixed-name'))
+            elif not want:
+                stats.mon('M.look.must-reject')
+                for n in set(look):
+                    stats.count('look:must-reject:name:' + n)
+                for n in set(blank):
+                    stats.count('look:must-reject:blank-suffixed-name')
+                if INFO in s and look:
+                    # the sets the class is about: everything in order except that a look-alike stands where a part should
+                    nc, nd = len(s.intersection(CTRL_NAMES)), len(s.intersection(DATA_NAMES))
+                    if nc <= 1 and nd <= 1 and nc + nd >= 1:
+                        stats.mon('M.look.replaced-part')
+                        stats.count('look:replaced:' + ('both' if nc + nd == 0 else 'control' if nc == 0 else 'data'))
+                        stats.count('look:replaced:open:' + how)
+                        stats.count('look:replaced:first-member:' + ('look-alike' if names[0] in look else 'other'))
+                        stats.count('look:replaced:last-member:' + ('look-alike' if names[-1] in look else 'other'))
+        if how in FOBJ_KINDS:
+            stats.mon('M.fobj.set')
+    lsfx = '/look-alike-part-name' if look else '/blank-suffixed-part-name' if blank else ''
+    opener, cleanup = open_deb(ctx, raw, how)
     try:
         try:
             deb = opener()
         except debfile.DebError as e:
             if stats is not None:
                 stats.mon('M.reject')
-            if want and not dup:
+            if want and not dup and not either:
                 out.add('acceptable-member-set-rejected', 'members %r (one candidate per part) rejected: DebError(%s)' % (names, e))
             return out
         except Exception as e:
-            if want:
-                out.add('constructor-raises/%s' % type(e).__name__, 'members %r: %r' % (names, e))
+            if want or either:
+                out.add('constructor-raises/%s' % type(e).__name__, 'members %r%s: %r' % (
+                    names, ' (acceptance or DebError are both tolerated for this set, nothing else)' if either and not want else '', e))
             else:
                 out.add('defective-set-rejected-with-wrong-exception/%s' % type(e).__name__,
                         'members %r must be rejected with DebError, got %r' % (names, e))
             return out
-        if not want:
+        if not want and not either:
             s = set(names)
             why = ('no debian-binary' if INFO not in s else
                    'control candidates %r, data candidates %r' % (sorted(s.intersection(CTRL_NAMES)), sorted(s.intersection(DATA_NAMES))))
             nc, nd = len(s.intersection(CTRL_NAMES)), len(s.intersection(DATA_NAMES))
             key = ('missing-debian-binary' if INFO not in s else 'missing-part' if (nc == 0 or nd == 0) else 'too-many-candidates')
-            out.add('defective-set-accepted/' + key, 'members %r accepted although %s' % (names, why))
+            later = ''
+            if look or blank:
+                # for the witness only: what the accepted object does when it is asked
+                later = '; the object was constructed, and then debcontrol() -> %r, data.has_file(%r) -> %r' % (
+                    outcome(lambda: sorted(deb.debcontrol().keys())), STD_FILE[0], outcome(lambda: deb.data.has_file(STD_FILE[0])))
+                why += ' (%r only look like part names)' % sorted(set(look + blank))
+            out.add('defective-set-accepted/' + key + lsfx, 'members %r accepted although %s%s' % (names, why, later))
             return out
-        # accepted, as it must be: the chosen parts must serve the standard content
+        # accepted, as it must be (or may be): the chosen parts must serve the standard content
         if stats is not None:
             stats.mon('M.accepted-served')
             if any(var):
                 stats.mon('M.var.accepted-served')
+            if look or blank:
+                stats.count('look:accepted-and-served')
         try:
             got = deb.debcontrol()
             if [(k, got[k]) for k in got.keys()] != STD_CONTROL:
@@ -1916,14 +2334,11 @@ def check_set(ctx, case, stats):
                     out.add('file-content-differs/%s-spelling' % spk, 'members %r: get_content(%r) differs' % (names, sp))
             deb.close()
         except Exception as e:
-            out.add('accepted-set-query-raises/%s' % type(e).__name__, 'members %r: %r' % (names, e))
+            out.add('accepted-set-query-raises/%s%s' % (type(e).__name__, lsfx), 'members %r: %r' % (names, e))
         return out
     finally:
-        if path:
-            try:
-                os.unlink(path)
-            except OSError:
-                pass
+        deb = None
+        cleanup()
 
 
 # --- shrinking (only on a violation; every candidate is re-executed and kept only if the same mechanism fires)
@@ -1978,8 +2393,10 @@ def _shrink_candidates(case):
                     yield variant(fields=[[k, split_line(line, li)[1]]])
     if case.get('tarfmt', 'gnu') != 'gnu':
         yield variant(tarfmt='gnu')
-    if case.get('open') == 'filename':
+    if case.get('open', 'fileobj') != 'fileobj':      # filename= / minimal-interface object / mmap -> BytesIO
         yield variant(open='fileobj')
+        if case.get('open') in FOBJ_KINDS and case.get('open') != 'fileobj:rst':
+            yield variant(open='fileobj:rst')
     ar = case['ar']
     if ar['order'] != ['info', 'control', 'data'] or ar.get('hdr') or ar.get('style') != 'bare':
         yield variant(ar={'order': ['info', 'control', 'data'], 'style': 'bare', 'hdr': []})
@@ -2041,13 +2458,21 @@ def shrink_set(ctx, case, key):
     while progress:
         progress = False
         for i in range(len(cur['members'])):
-            cand = dict(cur, members=cur['members'][:i] + cur['members'][i + 1:], open='fileobj')
-            if cur.get('var'):
-                cand['var'] = cur['var'][:i] + cur['var'][i + 1:]
-            if any(k == key for k, _ in check_set(ctx, cand, None)):
-                cur = cand
-                progress = True
+            # first with BytesIO, then with the way of opening the case came with (a witness may need its file object)
+            for how in ['fileobj'] + ([cur['open']] if cur.get('open', 'fileobj') != 'fileobj' else []):
+                cand = dict(cur, members=cur['members'][:i] + cur['members'][i + 1:], open=how)
+                if cur.get('var'):
+                    cand['var'] = cur['var'][:i] + cur['var'][i + 1:]
+                if any(k == key for k, _ in check_set(ctx, cand, None)):
+                    cur = cand
+                    progress = True
+                    break
+            if progress:
                 break
+    if cur.get('open', 'fileobj') != 'fileobj':
+        cand = dict(cur, open='fileobj')
+        if any(k == key for k, _ in check_set(ctx, cand, None)):
+            cur = cand
     return cur
 
 
@@ -2069,6 +2494,8 @@ def report(ctx, case, findings, shrinker):
                         small = case
             except Exception:
                 small = case
+        if small.get('open') in FOBJ_KINDS:
+            msg += ' [the package is read from fileobj=%s]' % FOBJ_TEXT[small['open']]
         if small.get('kind') == 'pkg':
             msg += variant_text(small)
         elif any(small.get('var') or []):
